@@ -10,7 +10,8 @@
      Mode A: the victim sleeps 300 us after every wake-up (rt_wake_delay_us) while bargers
              cycle freely.
    Mixes: writer victim / writer bargers, reader victim / writer bargers, writer victim /
-   reader bargers, and a light mix with two blocking victims.
+   reader bargers, a light mix with two blocking victims, and a mix in which a second thread keeps
+   arriving through the blocking nsync_mu_lock (each call a fresh, never-queued attempt).
 
    Oracles: the number of times the victim sleeps inside ONE lock call is at most
    LONG_WAIT_THRESHOLD + 2 (the constant is read from the tree under test; checked while it is still inside, by the bargers, and on
@@ -31,25 +32,33 @@ static struct {
 	unsigned long base_sleeps[2];
 	int in_call[2];
 	int vdone[2];
+	int fresh_tid, fresh_in_call; /* mix 4: the fresh locker's id, and whether it is inside nsync_mu_lock */
+	int window;                 /* a barger has just released the mutex while a victim was inside a lock call */
+	int queued[RT_MAXT];        /* the thread has put itself on the mutex queue during its current lock call */
 	unsigned max_sleeps;
 	unsigned hist[40];
 } S;
-enum { CV_ACQ = 0, CV_SLEEPS, CV_BARGE_OK, CV_BARGE_FAIL, CV_LONGWAIT_SET, CV_MAX31 };
+enum { CV_ACQ = 0, CV_SLEEPS, CV_BARGE_OK, CV_BARGE_FAIL, CV_LONGWAIT_SET, CV_MAX31, CV_FRESH };
 
 static int is_victim (int tid) { return (tid < S.nvict); }
 
 static void word_cb (int idx, int op, uint32_t old_v, uint32_t new_v, int ok) {
+	int self = rt_self ();
+	const char *at;
 	(void) idx; (void) op;
-	if (!ok) return;
+	if (!ok || self < 0) return;
+	at = rt_thread_at (self);
 	if ((new_v & MU_LONG_WAIT) && !(old_v & MU_LONG_WAIT)) rt_cover (CV_LONGWAIT_SET);
+	/* a CAS in nsync_mu_lock_slow_ that takes the queue spinlock is the thread queueing itself */
+	if (!strcmp (at, "nsync_mu_lock_slow_") && (new_v & 2u) && !(old_v & 2u)) S.queued[self] = 1;
 	if ((old_v & MU_LONG_WAIT) != 0) {
 		int acquires = ((new_v & SC_MU_WLOCK) && !(old_v & SC_MU_WLOCK)) || ((new_v & SC_MU_RLOCK_FIELD) > (old_v & SC_MU_RLOCK_FIELD));
 		/* the fast paths of the four lock entry points are only ever run by a thread that has not queued;
-		   nsync_mu_lock_slow_ may be run by a woken (designated waker) thread, which is allowed to acquire */
-		const char *at = rt_thread_at (rt_self ());
-		int never_queued = !strcmp (at, "nsync_mu_trylock") || !strcmp (at, "nsync_mu_rtrylock") || !strcmp (at, "nsync_mu_lock") || !strcmp (at, "nsync_mu_rlock");
+		   nsync_mu_lock_slow_ is run by threads that may have queued (and been woken): those may acquire */
+		int never_queued = !strcmp (at, "nsync_mu_trylock") || !strcmp (at, "nsync_mu_rtrylock") || !strcmp (at, "nsync_mu_lock") || !strcmp (at, "nsync_mu_rlock") ||
+				   (!strcmp (at, "nsync_mu_lock_slow_") && !S.queued[self]);
 		if (acquires && never_queued)
-			rt_violation ("acquired-under-long-wait", at, "thread %d acquired the mutex in %s (word %#x -> %#x) although the long-wait bit was set and it had not queued", rt_self (), at, old_v, new_v);
+			rt_violation ("acquired-under-long-wait", at, "thread %d acquired the mutex in %s (word %#x -> %#x) although the long-wait bit was set and it had not queued", self, at, old_v, new_v);
 	}
 }
 
@@ -66,6 +75,7 @@ static void victim (int tid) {
 	for (i = 0; i < S.nacq; i++) {
 		int spins = 0; unsigned s;
 		while (!__atomic_load_n (&S.barger_holds, __ATOMIC_ACQUIRE)) { rt_yield (); if (!rt_mode_b () && (++spins & 7) == 0) rt_sleep_us (5); if (spins > 50000000) rt_fatal ("no barger ever held the mutex"); }
+		S.queued[tid] = 0;
 		S.base_sleeps[tid] = rt_thread_sleeps (tid);
 		__atomic_store_n (&S.in_call[tid], 1, __ATOMIC_RELEASE);
 		if (reader) RT_OP ("nsync_mu_rlock", nsync_mu_rlock (&S.mu)); else RT_OP ("nsync_mu_lock", nsync_mu_lock (&S.mu));
@@ -101,25 +111,54 @@ static void barger (int tid) {
 					int all = 1;
 					/* every unfinished victim must have arrived in its lock call and be asleep */
 					for (v = 0; v < S.nvict; v++) if (!__atomic_load_n (&S.vdone[v], __ATOMIC_ACQUIRE) && !(__atomic_load_n (&S.in_call[v], __ATOMIC_ACQUIRE) && rt_thread_in_wait (v))) all = 0;
+					/* a fresh locker that is inside its call but awake (just woken) also gets its failing turn before the release */
+					if (S.fresh_tid > 0 && __atomic_load_n (&S.fresh_in_call, __ATOMIC_ACQUIRE) && !rt_thread_in_wait (S.fresh_tid)) all = 0;
 					if (all || __atomic_load_n (&S.victim_done, __ATOMIC_ACQUIRE) >= S.nvict || ++spins > 20000) break;
 					rt_yield ();
 				}
 			} else { volatile int k; for (k = 0; k < 2000; k++) { } }
 			__atomic_store_n (&S.barger_holds, 0, __ATOMIC_RELEASE);
 			if (reader) RT_OP ("nsync_mu_runlock", nsync_mu_runlock (&S.mu)); else RT_OP ("nsync_mu_unlock", nsync_mu_unlock (&S.mu));
+			__atomic_store_n (&S.window, 1, __ATOMIC_RELEASE);
 		} else { rt_cover (CV_BARGE_FAIL); rt_yield (); }
 		for (v = 0; v < S.nvict; v++) check_overtaken (v);
 		if (++guard > 3000000) rt_fatal ("barger loop did not end");
 	}
 }
-static void body (int tid) { if (is_victim (tid)) victim (tid); else barger (tid); }
+/* mix 4: a thread that keeps arriving through the BLOCKING entry point: every call is a fresh, never-queued attempt */
+static void fresh_locker (int tid) {
+	int guard = 0;
+	while (__atomic_load_n (&S.victim_done, __ATOMIC_ACQUIRE) < S.nvict) {
+		/* only when the mutex looks free: otherwise this thread would just queue behind the victim for the rest of the round */
+		if ((sc_word (&S.mu.word) & SC_MU_ANY_LOCK) == 0 && __atomic_exchange_n (&S.window, 0, __ATOMIC_ACQ_REL)) {
+			/* arrive exactly when the mutex has just been released and the woken victim has not run yet */
+			S.queued[tid] = 0;
+			__atomic_store_n (&S.fresh_in_call, 1, __ATOMIC_RELEASE);
+			RT_OP ("nsync_mu_lock", nsync_mu_lock (&S.mu));
+			__atomic_store_n (&S.fresh_in_call, 0, __ATOMIC_RELEASE);
+			rt_cover (CV_FRESH);
+			rt_point ("fresh-section");
+			RT_OP ("nsync_mu_unlock", nsync_mu_unlock (&S.mu));
+		}
+		rt_yield ();
+		if (!rt_mode_b () && (guard & 15) == 0) rt_sleep_us (20);
+		if (++guard > 3000000) rt_fatal ("fresh locker loop did not end");
+	}
+}
+static void body (int tid) { if (is_victim (tid)) victim (tid); else if (S.mix == 4 && tid == S.nvict + S.nbarg - 1 && S.nbarg > 1) fresh_locker (tid); else barger (tid); }
 
 static int adversary (int self, int forced, const int *run, int n) {
-	int i, want_victim = (self < 0 || !is_victim (self));
+	static int chain;
+	int i, self_victim = (self >= 0 && is_victim (self));
 	if (!forced) { for (i = 0; i < n; i++) if (run[i] == self) return (self); }
-	/* the running thread yields or cannot continue: a yielding barger hands over to a victim
-	   (which takes its failing turn), a yielding or sleeping victim to a barger */
-	for (i = 0; i < n; i++) if (run[i] != self && is_victim (run[i]) == want_victim) return (run[i]);
+	/* the running thread yields or cannot continue.  A yielding barger first lets the other non-victims take their
+	   turn (at most one round of them), then a victim (which takes its failing turn); a yielding or sleeping
+	   victim hands over to a barger. */
+	if (!self_victim && chain < S.nbarg - 1) {
+		for (i = 0; i < n; i++) if (run[i] != self && !is_victim (run[i])) { chain++; return (run[i]); }
+	}
+	chain = 0;
+	for (i = 0; i < n; i++) if (run[i] != self && is_victim (run[i]) == !self_victim) return (run[i]);
 	for (i = 0; i < n; i++) if (run[i] != self) return (run[i]);
 	return (-1);
 }
@@ -127,22 +166,23 @@ static int adversary (int self, int forced, const int *run, int n) {
 static int setup (uint64_t seed) {
 	(void) seed;
 	nsync_mu_init (&S.mu);
-	S.mix = (int) rt_param ("mix", -1); if (S.mix < 0) S.mix = (int) rt_rand_n (4);
+	S.mix = (int) rt_param ("mix", -1); if (S.mix < 0) S.mix = (int) rt_rand_n (5);
 	S.nvict = S.mix == 3 ? 2 : 1;
 	S.nbarg = 1 + (int) rt_rand_n (2);
+	if (S.mix == 4) S.nbarg = 2;      /* one try-lock barger and one fresh blocking locker */
 	S.nacq = 1 + (int) rt_rand_n (2);
-	S.victim_done = 0; S.barger_holds = 0; S.in_call[0] = S.in_call[1] = 0; S.vdone[0] = S.vdone[1] = 0;
+	S.victim_done = 0; S.barger_holds = 0; S.window = 0; S.fresh_in_call = 0; S.fresh_tid = (S.mix == 4) ? S.nvict + S.nbarg - 1 : 0; S.in_call[0] = S.in_call[1] = 0; S.vdone[0] = S.vdone[1] = 0; memset (S.queued, 0, sizeof (S.queued));
 	rt_watch_word (0, &S.mu.word, &word_cb);
 	rt_ev ((uint32_t) (S.mix | S.nbarg << 4 | S.nacq << 8));
 	return (S.nvict + S.nbarg);
 }
 static void check (void) { if ((sc_word (&S.mu.word) & (SC_MU_ANY_LOCK | 2u | MU_LONG_WAIT)) != 0) rt_violation ("final-word", "held", "after every thread finished the mutex word is %#x", sc_word (&S.mu.word)); }
 static void teardown (void) { rt_watch_word (0, NULL, NULL); }
-static void describe (FILE *f) { static const char *const mn[] = { "writer victim / trylock bargers", "reader victim / trylock bargers", "writer victim / rtrylock bargers", "two writer victims / trylock bargers" };
+static void describe (FILE *f) { static const char *const mn[] = { "writer victim / trylock bargers", "reader victim / trylock bargers", "writer victim / rtrylock bargers", "two writer victims / trylock bargers", "writer victim / trylock barger + fresh blocking lockers" };
 	fprintf (f, "{\"mix\":\"%s\",\"bargers\":%d,\"victim_acquisitions\":%d,\"max_sleeps_in_one_call_so_far\":%u}", mn[S.mix], S.nbarg, S.nacq, S.max_sleeps); }
 static void summary (FILE *f) { int i; fprintf (f, "\"sleeps_histogram\":["); for (i = 0; i < 40; i++) fprintf (f, "%s%u", i ? "," : "", S.hist[i]); fprintf (f, "]"); }
 static void pinit (void) {
 	rt_cover_name (CV_ACQ, "victim_acquisitions"); rt_cover_name (CV_SLEEPS, "victim_sleeps_total"); rt_cover_name (CV_BARGE_OK, "barger_trylock_ok"); rt_cover_name (CV_BARGE_FAIL, "barger_trylock_failed");
-	rt_cover_name (CV_LONGWAIT_SET, "long_wait_bit_set"); rt_cover_name (CV_MAX31, "acquisitions_that_needed_31_or_more_sleeps");
+	rt_cover_name (CV_LONGWAIT_SET, "long_wait_bit_set"); rt_cover_name (CV_MAX31, "acquisitions_that_needed_31_or_more_sleeps"); rt_cover_name (CV_FRESH, "fresh_blocking_attempts_in_the_window");
 }
 rt_scenario rt_scen = { "starve", "C14", 4, &pinit, &setup, &body, &check, &teardown, &describe, &summary, NULL, &adversary };
